@@ -47,6 +47,15 @@ def _decode_all(payload):
         if b0 != a:
             b = b0
         res[repr(lm)] = (a, b, c)
+    # two readers alive at the same time with different options, used after both were created
+    r1 = RTCMReader(io.BytesIO(frame), labelmsm=1)
+    r2 = RTCMReader(io.BytesIO(frame), labelmsm=2)
+    r0 = RTCMReader(io.BytesIO(frame), labelmsm=0)
+    m1, m2, m0 = r1.read()[1], r2.read()[1], r0.read()[1]
+    for lm, m in (("1", m1), ("2", m2), ("0", m0)):
+        if dict(R.public_attrs(m)) != res[lm][0]:
+            a, b, _c = res[lm]
+            res[lm] = (a, b, dict(R.public_attrs(m)))
     return res
 
 
